@@ -26,70 +26,177 @@ theorem rcGet_rcSet_other (rc : List (Nat × Nat)) (c c' n : Nat) (h : c' ≠ c)
   simp only [rcGet, rcSet, List.find?_cons, hc]
   rw [find?_filter_ne c c' h]
 
-/-- inserting fresh, pairwise different expansions drops no reference -/
-theorem insertShared_no_drops (t : Bytes) (d cell : Nat) : ∀ (ts : List (Bytes × List Part)) (root : Node) (drops : Nat),
-    Node.Shp root → (∀ e ∈ ts, wfParts e.2 = true) → (ts.map (·.2)).Nodup → (∀ e ∈ ts, Node.find root e.2 = none) →
-    (insertShared t d cell ts root drops).2 = drops
-  | [], _, _, _, _, _, _ => rfl
-  | e :: rest, root, drops, hS, hwf, hnd, hfresh => by
-    simp only [insertShared]
-    have he := hfresh e (by simp)
-    simp only [he, Option.isSome_none, Bool.false_eq_true, ite_false]
-    simp only [List.map_cons, List.nodup_cons] at hnd
-    have hwe := hwf e (by simp)
-    apply insertShared_no_drops t d cell rest _ drops (Node.insert_Shp root e.2 _ hS hwe).1
-      (fun y hy => hwf y (by simp [hy])) hnd.2
-    intro y hy
-    rw [Node.find_insert root e.2 y.2 _ (Node.SOK_of_Shp root hS) (wfParts_altOK _ hwe) (wfParts_altOK _ (hwf y (by simp [hy]))) he]
-    have : y.2 ≠ e.2 := by intro h; exact hnd.1 (h ▸ List.mem_map.2 ⟨y, hy, rfl⟩)
-    rw [if_neg this]; exact hfresh y (by simp [hy])
+/-- the number of different part lists among `ts` that are not in `seen` -/
+def newKeys : List (List Part) → List (Bytes × List Part) → Nat
+  | _, [] => 0
+  | seen, e :: rest => if e.2 ∈ seen then newKeys seen rest else newKeys (e.2 :: seen) rest + 1
 
-/-- deleting all expansions of a template whose values share cell `k` with count `|ts|`: the last one hands the data back -/
-theorem deleteAll_shared (k d : Nat) : ∀ (ts : List (Bytes × List Part)) (root : Node) (rc : List (Nat × Nat)) (out : Option Nat),
-    Node.Shp root → (∀ e ∈ ts, wfParts e.2 = true) → (ts.map (·.2)).Nodup →
-    (∀ e ∈ ts, ∃ i, Node.find root e.2 = some i ∧ i.cell = some k ∧ i.data = d) → rcGet rc k = ts.length → ts ≠ [] →
-    (deleteAll ts root rc out).2.2 = some d ∧ rcGet (deleteAll ts root rc out).2.1 k = 0 ∧
+/-- the number of different routes of a template (`< |ts|` when two expansions have the same parts) -/
+def nkeys (ts : List (Bytes × List Part)) : Nat := newKeys [] ts
+
+theorem newKeys_le : ∀ (ts : List (Bytes × List Part)) (seen : List (List Part)), newKeys seen ts ≤ ts.length
+  | [], _ => Nat.le_refl _
+  | e :: rest, seen => by
+    simp only [newKeys, List.length_cons]
+    split
+    · have := newKeys_le rest seen; omega
+    · have := newKeys_le rest (e.2 :: seen); omega
+
+theorem newKeys_pos : ∀ (ts : List (Bytes × List Part)) (seen : List (List Part)) (e : Bytes × List Part), e ∈ ts → e.2 ∉ seen →
+    newKeys seen ts > 0
+  | [], _, _, h, _ => by cases h
+  | x :: rest, seen, e, he, hs => by
+    simp only [newKeys]
+    split
+    · rename_i hx
+      rcases List.mem_cons.1 he with rfl | he'
+      · exact absurd hx hs
+      · exact newKeys_pos rest seen e he' hs
+    · omega
+
+theorem nkeys_pos {ts : List (Bytes × List Part)} (h : ts ≠ []) : nkeys ts > 0 := by
+  cases ts with
+  | nil => exact absurd rfl h
+  | cons e rest => exact newKeys_pos _ [] e (by simp) (by simp)
+
+theorem newKeys_distinct : ∀ (ts : List (Bytes × List Part)) (seen : List (List Part)), (ts.map (·.2)).Nodup →
+    (∀ e ∈ ts, e.2 ∉ seen) → newKeys seen ts = ts.length
+  | [], _, _, _ => rfl
+  | e :: rest, seen, hnd, hs => by
+    simp only [List.map_cons, List.nodup_cons] at hnd
+    simp only [newKeys, hs e (by simp), ite_false, List.length_cons]
+    rw [newKeys_distinct rest (e.2 :: seen) hnd.2]
+    intro y hy hm
+    rcases List.mem_cons.1 hm with h | h
+    · exact hnd.1 (h ▸ List.mem_map.2 ⟨y, hy, rfl⟩)
+    · exact hs y (by simp [hy]) h
+
+theorem nkeys_distinct {ts : List (Bytes × List Part)} (hd : DistinctExps ts) : nkeys ts = ts.length :=
+  newKeys_distinct ts [] hd (by intro e _ h; cases h)
+
+/-- inserting expansions: one reference is dropped for every expansion whose key is there already -/
+theorem insertShared_drops (t : Bytes) (d cell : Nat) : ∀ (ts : List (Bytes × List Part)) (root : Node) (drops : Nat) (seen : List (List Part)),
+    Node.Shp root → (∀ e ∈ ts, wfParts e.2 = true) → (∀ e ∈ ts, ((Node.find root e.2).isSome = true ↔ e.2 ∈ seen)) →
+    (insertShared t d cell ts root drops).2 + newKeys seen ts = drops + ts.length
+  | [], _, _, _, _, _, _ => rfl
+  | e :: rest, root, drops, seen, hS, hwf, hseen => by
+    simp only [insertShared, List.length_cons]
+    have hwe := hwf e (by simp)
+    have hS' := (Node.insert_Shp root e.2 (sharedInfo t d cell e) hS hwe).1
+    have hfi : ∀ y ∈ rest, Node.find (Node.insert root e.2 (sharedInfo t d cell e)) y.2 =
+        if y.2 = e.2 then some (keepOld e.2 (Node.find root e.2) (sharedInfo t d cell e)) else Node.find root y.2 :=
+      fun y hy => Node.find_insert' root e.2 y.2 _ (Node.SOK_of_Shp root hS) (wfParts_altOK _ hwe)
+        (wfParts_altOK _ (hwf y (by simp [hy])))
+    by_cases hdup : (Node.find root e.2).isSome = true
+    · have hes : e.2 ∈ seen := (hseen e (by simp)).1 hdup
+      simp only [hdup, ite_true, newKeys, hes]
+      have := insertShared_drops t d cell rest _ (drops + 1) seen hS' (fun y hy => hwf y (by simp [hy])) (by
+        intro y hy
+        rw [hfi y hy]
+        by_cases hye : y.2 = e.2
+        · simp only [hye, ite_true, Option.isSome_some, true_iff]; exact hes
+        · simp only [hye, ite_false]; exact hseen y (by simp [hy]))
+      omega
+    · have hes : e.2 ∉ seen := fun h => hdup ((hseen e (by simp)).2 h)
+      simp only [hdup, Bool.false_eq_true, ite_false, newKeys, hes]
+      have := insertShared_drops t d cell rest _ drops (e.2 :: seen) hS' (fun y hy => hwf y (by simp [hy])) (by
+        intro y hy
+        rw [hfi y hy]
+        by_cases hye : y.2 = e.2
+        · simp [hye]
+        · simp only [hye, ite_false, List.mem_cons, false_or]; exact hseen y (by simp [hy]))
+      omega
+
+/-- inserting fresh expansions keeps one reference per different route -/
+theorem insertShared_count (t : Bytes) (d cell : Nat) (ts : List (Bytes × List Part)) (root : Node)
+    (hS : Node.Shp root) (hwf : ∀ e ∈ ts, wfParts e.2 = true) (hfresh : ∀ e ∈ ts, Node.find root e.2 = none) :
+    ts.length - (insertShared t d cell ts root 0).2 = nkeys ts := by
+  have := insertShared_drops t d cell ts root 0 [] hS hwf (by
+    intro e he; rw [hfresh e he]; simp)
+  unfold nkeys
+  omega
+
+/-- deleting all expansions of a template whose values share cell `k`, whose count is the number of its routes still
+present: the last route hands the data back; expansions whose route is gone already are skipped -/
+theorem deleteAll_shared (k d : Nat) : ∀ (ts : List (Bytes × List Part)) (root : Node) (rc : List (Nat × Nat)) (out : Option Nat)
+    (gone : List (List Part)),
+    Node.Shp root → (∀ e ∈ ts, wfParts e.2 = true) →
+    (∀ e ∈ ts, e.2 ∈ gone → Node.find root e.2 = none) →
+    (∀ e ∈ ts, e.2 ∉ gone → ∃ i, Node.find root e.2 = some i ∧ i.cell = some k ∧ i.data = d) →
+    rcGet rc k = newKeys gone ts →
+    (newKeys gone ts > 0 → (deleteAll ts root rc out).2.2 = some d) ∧
+    (newKeys gone ts = 0 → (deleteAll ts root rc out).2.2 = out) ∧
+    rcGet (deleteAll ts root rc out).2.1 k = 0 ∧
     ∀ k', k' ≠ k → rcGet (deleteAll ts root rc out).2.1 k' = rcGet rc k'
-  | [], _, _, _, _, _, _, _, _, hne => absurd rfl hne
-  | e :: rest, root, rc, out, hS, hwf, hnd, hpres, hrc, _ => by
+  | [], _, _, _, _, _, _, _, _, hrc => by
+    simp only [deleteAll, newKeys] at hrc ⊢
+    exact ⟨fun h => absurd h (by omega), fun _ => trivial, hrc, fun _ _ => trivial⟩
+  | e :: rest, root, rc, out, gone, hS, hwf, hgone, hpres, hrc => by
     obtain ⟨raw, parts⟩ := e
-    obtain ⟨i, hfi, hci, hdi⟩ := hpres (raw, parts) (by simp)
     have hwe : wfParts parts = true := hwf (raw, parts) (by simp)
     have hdel := Node.find_delete root false parts
+    have hS' : Node.Shp (Node.delete false root parts).1 := Node.delete_Shp root false parts hS hwe
+    have hfd : ∀ y ∈ rest, Node.find (Node.delete false root parts).1 y.2 = if y.2 = parts then none else Node.find root y.2 :=
+      fun y hy => (hdel y.2 hS hwe (hwf y (by simp [hy]))).1
+    have hres : (Node.delete false root parts).2 = Node.find root parts := (hdel parts hS hwe hwe).2
     simp only [deleteAll]
-    have hres : (Node.delete false root parts).2 = some i := by rw [(hdel parts hS hwe hwe).2]; exact hfi
-    cases hd' : Node.delete false root parts with
-    | mk root' res =>
-      rw [hd'] at hres
-      simp only at hres
-      subst hres
-      simp only [hci]
-      simp only [List.map_cons, List.nodup_cons] at hnd
-      have hS' : Node.Shp root' := by have := Node.delete_Shp root false parts hS hwe; rw [hd'] at this; exact this
-      have hrcn : rcGet rc k - 1 = rest.length := by rw [hrc]; simp
-      cases rest with
-      | nil =>
-        simp only [List.length_nil] at hrcn
-        simp only [deleteAll, hrcn, ite_true]
-        exact ⟨by rw [hdi], rcGet_rcSet_same _ _ _, fun k' hk' => rcGet_rcSet_other _ _ _ _ hk'⟩
-      | cons e2 rest2 =>
-        have hpres' : ∀ y ∈ e2 :: rest2, ∃ j, Node.find root' y.2 = some j ∧ j.cell = some k ∧ j.data = d := by
-          intro y hy
-          obtain ⟨j, hj, hcj, hdj⟩ := hpres y (by simp [hy])
-          refine ⟨j, ?_, hcj, hdj⟩
-          have hwy := hwf y (by simp [hy])
-          have := (hdel y.2 hS hwe hwy).1
-          rw [hd'] at this
-          simp only at this
-          rw [this]
-          have hne : y.2 ≠ parts := by intro h; exact hnd.1 (h ▸ List.mem_map.2 ⟨y, hy, rfl⟩)
-          rw [if_neg hne]; exact hj
-        have ih := deleteAll_shared k d (e2 :: rest2) root' (rcSet rc k (rcGet rc k - 1))
-          (if rcGet rc k - 1 = 0 then some i.data else out) hS' (fun y hy => hwf y (by simp [hy])) hnd.2 hpres'
-          (by rw [rcGet_rcSet_same]; exact hrcn) (by simp)
-        refine ⟨ih.1, ih.2.1, ?_⟩
-        intro k' hk'
-        rw [ih.2.2 k' hk', rcGet_rcSet_other _ _ _ _ hk']
+    by_cases hg : parts ∈ gone
+    · have hnone : Node.find root parts = none := hgone (raw, parts) (by simp) hg
+      rw [hnone] at hres
+      cases hd' : Node.delete false root parts with
+      | mk root' res =>
+        rw [hd'] at hres hS' hfd
+        simp only at hres hS' hfd
+        subst hres
+        simp only [newKeys, hg, ite_true] at hrc ⊢
+        exact deleteAll_shared k d rest root' rc out gone hS' (fun y hy => hwf y (by simp [hy]))
+          (by
+            intro y hy hyg
+            rw [hfd y hy]
+            split
+            · rfl
+            · exact hgone y (by simp [hy]) hyg)
+          (by
+            intro y hy hyg
+            rw [hfd y hy]
+            have : y.2 ≠ parts := fun h => hyg (h ▸ hg)
+            rw [if_neg this]
+            exact hpres y (by simp [hy]) hyg)
+          hrc
+    · obtain ⟨i, hfi, hci, hdi⟩ := hpres (raw, parts) (by simp) hg
+      rw [hfi] at hres
+      cases hd' : Node.delete false root parts with
+      | mk root' res =>
+        rw [hd'] at hres hS' hfd
+        simp only at hres hS' hfd
+        subst hres
+        simp only [hci, newKeys, hg, ite_false] at hrc ⊢
+        have hn : rcGet rc k - 1 = newKeys (parts :: gone) rest := by omega
+        have ih := deleteAll_shared k d rest root' (rcSet rc k (rcGet rc k - 1))
+          (if rcGet rc k - 1 = 0 then some i.data else out) (parts :: gone) hS' (fun y hy => hwf y (by simp [hy]))
+          (by
+            intro y hy hyg
+            rw [hfd y hy]
+            split
+            · rfl
+            · rename_i hne
+              rcases List.mem_cons.1 hyg with h | h
+              · exact absurd h hne
+              · exact hgone y (by simp [hy]) h)
+          (by
+            intro y hy hyg
+            simp only [List.mem_cons, not_or] at hyg
+            rw [hfd y hy, if_neg hyg.1]
+            exact hpres y (by simp [hy]) hyg.2)
+          (by rw [rcGet_rcSet_same]; exact hn)
+        refine ⟨fun _ => ?_, fun h => absurd h (by omega), ih.2.2.1, ?_⟩
+        · by_cases hz : newKeys (parts :: gone) rest = 0
+          · rw [ih.2.1 hz]
+            have : rcGet rc k - 1 = 0 := by omega
+            simp only [this, ite_true, hdi]
+          · exact ih.1 (by omega)
+        · intro k' hk'
+          rw [ih.2.2.2 k' hk', rcGet_rcSet_other _ _ _ _ hk']
 
 /-- a template without groups: its single stored value is inline -/
 theorem deleteAll_inline (e : Bytes × List Part) (root : Node) (rc : List (Nat × Nat)) (out : Option Nat) (i : Info)
